@@ -7,6 +7,7 @@
   model but none of the model's control flow.
 -/
 import PegtlVerif.Model.Basic
+import PegtlVerif.Model.Utf
 
 namespace Pegtl.Spec
 open Pegtl
@@ -110,6 +111,18 @@ def atomSem (eol : Eol) (inp : Array UInt8) (endp : Nat) (a : Atom) (p : Nat) : 
   | .failure => none
   | .everything => some (max p endp)
   | .require n => if p + n ≤ endp then some p else none
+  -- one well-formed UTF-8 encoded scalar value in the range (`Utf.peekUtf8` is characterised as exactly
+  -- Unicode Table 3-7 by Props/C10.lean `C10_utf8`, `C10_utf8_table`)
+  | .utf8Range found lo hi =>
+    match Pegtl.Utf.peekUtf8 ((inp.toList.drop p).take (endp - p)) with
+    | some (cp, n) => if decide (lo ≤ cp ∧ cp ≤ hi) = found then some (p + n) else none
+    | none => none
+  -- the maximal run of digits, without a superfluous leading zero, whose value is at most `mx`
+  | .maxDigits mx =>
+    let ds := ((inp.toList.drop p).take (endp - p)).takeWhile (fun c => 48 ≤ c && c ≤ 57)
+    if ds.isEmpty then none
+    else if ds.length > 1 ∧ ds.head? = some 48 then none
+    else if ds.foldl (fun acc d => acc * 10 + (d.toNat - 48)) 0 ≤ mx then some (p + ds.length) else none
 
 /-- The PEG-with-errors big-step relation.  `G i` is the expression named `i`;
     `endp` is the end of the (sub-)input. -/
